@@ -863,6 +863,23 @@ func (e *Env) evalCall(n *ECall) SVal {
 		}
 		return boolV(sel(vs, k.T))
 	case "idx":
+		if len(n.Args) == 1 {
+			// idx(N): range index of loop N of the annotated function
+			nl, ok := n.Args[0].(*EInt)
+			if !ok {
+				sfail("idx(N) needs a literal loop number")
+			}
+			for _, li := range x.loops {
+				if fmt.Sprint(li.num) == nl.V && li.idxAlloc != nil {
+					v, ok := e.cur.locals[li.idxAlloc]
+					if !ok {
+						sfail("idx(%s): range index not initialised", nl.V)
+					}
+					return SVal{T: T(SBV(64), "(bvadd %s (_ bv1 64))", v.S), Ty: stInt}
+				}
+			}
+			sfail("idx(%s): no such slice-range loop", nl.V)
+		}
 		if e.loop != nil && e.loop.idxAlloc != nil {
 			v, ok := e.cur.locals[e.loop.idxAlloc]
 			if !ok {
